@@ -621,3 +621,4 @@ MANIFEST = {
     "asserts ordering/equality only where exact values differ by more than 1e-9 relative. Array magnitudes are outside this check (C16).",
     "ref": "DESIGN.md §4 C05",
 }
+MANIFEST["text"] += " Object histories: 7 start quantities (scalar, ndarray, zero, percent, nm/THz) x all sequences of <= 3 of 15 in-place steps (read dimensionality, //=, *=, /=, **=, ito_base/root/reduced_units, ito to other units, ito across dimensions through the 'sp' context) x 14 partners x 6 operators x both operand orders + hash: identical to a freshly built quantity of the same magnitude and units. Constructor paths: the same quantity built 9 ways in one registry (registry.Quantity, generic pint.Quantity, unit arithmetic, pickle round trips, copies) - all pairs equal, same hash, never strictly ordered."
